@@ -40,6 +40,9 @@ import Rl.Lemmas.Render
 import Rl.Lemmas.RenderGhost
 import Rl.Lemmas.RenderLogTop
 import Rl.Lemmas.RenderLogExec
+import Rl.Lemmas.RenderLogBd
+import Rl.Lemmas.CharSearch
+import Rl.Lemmas.EditorNextRet
 import Rl.Lemmas.LBFaithful
 open Rl Rl.Spec
 
@@ -654,24 +657,31 @@ def C02_lbFaithful_statement : Prop := ∀ (S : Segmenter) (U : UData), LBFaithf
     `Changeset::undo`, for every segmenter and every Unicode data (`Rl/Lemmas/LBFaithful.lean`). -/
 theorem C02_lbFaithful : C02_lbFaithful_statement := fun S U => lbFaithful S U
 
+/-- the width table gives control characters the width 0 (`unicode-width` does; it is what keeps control characters
+    off the fast path of `edit_insert`) -/
+def C02_CtlZero (U : UData) : Prop := ∀ c, isC0Control c = true → U.cwidth c = 0
+
 /-- the render log of a read, oldest first, without the `writeln` that follows `readline_edit` -/
 def C02_editorLog (S : Segmenter) (U : UData) (cfg : EdCfg) (ring : KillRing) (left right : Text) (inp : Input) :
     List RenderOp :=
   (readline S U cfg ring left right inp).2.render.tail.reverse
 
 /-- **The editor model's log is coherent and replays without panic**, for logs whose texts are of the
-    quantified kind and whose cursors are on character boundaries (`LogFine`; the latter is the line-buffer
-    invariant of C03 / C17). -/
+    quantified kind (`LogPlain`: a restriction on what is typed, stored, completed and hinted) and whose cursors are
+    on character boundaries (`LogBd`: the line-buffer invariant of C03 / C17 at the moments the renderer is called;
+    see `C02_logBd_statement`). -/
 theorem C02_editor_log_coherent (S : Segmenter) (U : UData) (cfg : EdCfg) (ring : KillRing) (left right : Text)
     (inp : Input) (hc : 2 ≤ cfg.cols) (hprompt : C02_Plain S (edR U cfg) cfg.prompt)
-    (hctl : ∀ c, isC0Control c = true → U.cwidth c = 0)
-    (hfine : LogFine S (edR U cfg) cfg.prompt (C02_editorLog S U cfg ring left right inp).reverse) :
+    (hctl : C02_CtlZero U)
+    (hplain : LogPlain S (edR U cfg) cfg.prompt (C02_editorLog S U cfg ring left right inp).reverse)
+    (hbd : LogBd (C02_editorLog S U cfg ring left right inp).reverse) :
     ∃ rs g, RepFrom S (edR U cfg) cfg.prompt (RS.init S (edR U cfg) cfg.prompt) {}
         (C02_editorLog S U cfg ring left right inp) rs g ∧
       C02_Coherent S (edR U cfg) cfg.prompt (RS.init S (edR U cfg) cfg.prompt) {}
         (C02_editorLog S U cfg ring left right inp) ∧
       RS.run S (edR U cfg) cfg.prompt (RS.init S (edR U cfg) cfg.prompt)
         (C02_editorLog S U cfg ring left right inp) = (rs, false) := by
+  have hfine := (logFine_iff S (edR U cfg) cfg.prompt _).2 ⟨hplain, hbd⟩
   have hlb : LBFaithful S U := C02_lbFaithful S U
   have hnext := fun fuel sea iep => pres_nextCmd (S := S) (U := U) (cfg := cfg) hc hprompt fuel sea iep
   have hw := readline_prog_logOK hc hprompt hnext (fun fuel => pres_completeLine hc hprompt hlb hnext fuel) hctl
@@ -694,8 +704,9 @@ theorem C02_editor_log_coherent (S : Segmenter) (U : UData) (cfg : EdCfg) (ring 
     hint the callback sees or without any hint): `C02_history` applied to the log the editor model produces. -/
 theorem C02_editor_shows (S : Segmenter) (U : UData) (cfg : EdCfg) (ring : KillRing) (left right : Text)
     (inp : Input) (hc : 2 ≤ cfg.cols) (hprompt : C02_Plain S (edR U cfg) cfg.prompt)
-    (hctl : ∀ c, isC0Control c = true → U.cwidth c = 0)
-    (hfine : LogFine S (edR U cfg) cfg.prompt (C02_editorLog S U cfg ring left right inp).reverse)
+    (hctl : C02_CtlZero U)
+    (hplain : LogPlain S (edR U cfg) cfg.prompt (C02_editorLog S U cfg ring left right inp).reverse)
+    (hbd : LogBd (C02_editorLog S U cfg ring left right inp).reverse)
     (ops rest : List RenderOp) (line : Text) (pos : Nat) (hint : Option Text) (b a : Text)
     (hlog : C02_editorLog S U cfg ring left right inp = (ops ++ [.sync line pos hint]) ++ rest)
     (hsplit : splitAtByte line pos = some (b, a)) :
@@ -706,8 +717,28 @@ theorem C02_editor_shows (S : Segmenter) (U : UData) (cfg : EdCfg) (ring : KillR
        Shows (edR U cfg).cw ((Term.blank (edR U cfg).cols).feed (edR U cfg).cw
           (RS.run S (edR U cfg) cfg.prompt (RS.init S (edR U cfg) cfg.prompt)
             (ops ++ [.sync line pos hint])).1.segs.reverse.flatten) p b a []) := by
-  obtain ⟨rs, g, hrep, _, _⟩ := C02_editor_log_coherent S U cfg ring left right inp hc hprompt hctl hfine
+  obtain ⟨rs, g, hrep, _, _⟩ := C02_editor_log_coherent S U cfg ring left right inp hc hprompt hctl hplain hbd
   rw [hlog] at hrep
   obtain ⟨rs1, g1, h1⟩ := hrep.prefix
   have hco := h1.coherent
   exact C02_history S (edR U cfg) cfg.prompt ops line pos hint b a hc hprompt hsplit hco.1 (by rw [hco.2])
+
+/-- not proved yet: **the cursor half follows from the line-buffer invariant** — under the helper contracts of C17
+    (validator and hinter do not panic, the completer reports a start on a character boundary at or before the
+    cursor, `indentSize ≤ 255`, a stable segmenter, acceptable bindings) every cursor the editor model logs is on a
+    character boundary.  Proved so far (`Rl/Lemmas/RenderLogBd.lean`): `BdI` (`WF s.line` and `LogBd s.render`) is a
+    step invariant of every rendering primitive and of `next_cmd` in both modes (`bdp_nextCmd`).  Missing: the same
+    for the line-buffer steps of `execute` and of the sub-loops.  Package L's `RdInv` / `safe_mainLoop` / `ExecSafe`
+    give `WF s.line` where a command or a loop *returns*; a log entry records the line at the moment the renderer is
+    called, which is in the middle of a command (`edit_kill`: kill, then repaint) and of a loop iteration
+    (completion: replace, repaint, read a key, …), so the invariant has to be carried through those bodies again
+    (with `LMSafe` per operation and the contextual facts — completer contract, search positions, saved line —
+    as in `Lemmas/EditorSafe*.lean` / `EditorRead.lean`), and `Undo` / `YankPop` need L's open cross-step invariant
+    `J` (`C17_Open`). -/
+def C02_logBd_statement : Prop :=
+  ∀ (S : Segmenter) (U : UData) (cfg : EdCfg) (left right : Text) (inp : Input),
+    (∀ t, cfg.validator t ≠ .panic) → cfg.hinterPanicAt = none →
+    (∀ t p, IsBoundary t (cfg.completer t p).1 ∧ (cfg.completer t p).1 ≤ p) →
+    cfg.indentSize ≤ 255 → S.Stable → BindsI cfg →
+    (readline S U cfg (KillRing.new 60) left right inp).1 ≠ .panic →
+    LogBd (C02_editorLog S U cfg (KillRing.new 60) left right inp).reverse
